@@ -50,7 +50,7 @@ GROUPS = {
      ["all_zeros_except_least_significant", "has_non_zero", "count_ones", "and", "or",
       "clear_least_significant_bit", "first_offset", "last_offset"])],
   "Pair": [
-    ("src/arch/all/packedpair/mod.rs", r"impl Pair \{", "Pair", ["with_indices", "index1", "index2"])],
+    ("src/arch/all/packedpair/mod.rs", r"impl Pair \{", "Pair", ["with_indices", "index1", "index2", "with_ranker"])],
   "Searcher": [
     ("src/memmem/searcher.rs", None, "searcher", ["do_packed_search"])],
   "Shift": [
@@ -97,6 +97,7 @@ ENUMS = {"Shift": {"Shift": "src/arch/all/twoway.rs"},
 VIEW_GROUPS = {"IterHint": ["FindIter", "Iter"]}
 # type hints for locals whose type Rust infers backwards
 LOCAL_HINTS = {("ApproximateByteSet", "new", "bits"): "u64",
+               ("Pair", "with_ranker", "index1"): "u8", ("Pair", "with_ranker", "index2"): "u8",
                ("Suffix", "forward", "candidate_start"): "usize", ("Suffix", "forward", "offset"): "usize",
                ("Suffix", "reverse", "candidate_start"): "usize", ("Suffix", "reverse", "offset"): "usize"}
 
@@ -213,6 +214,17 @@ class P:
                 self.eat("("); self.eat(); self.eat(")")
         self.eat("fn")
         name = self.eat()
+        generics = []
+        if self.peek() == "<":
+            self.eat("<")
+            while self.peek() != ">":
+                g = self.eat()
+                if self.accept(":"):
+                    while self.peek() not in (",", ">"):
+                        self.eat()
+                generics.append(g)
+                self.accept(",")
+            self.eat(">")
         self.eat("(")
         params, selfmode = [], None
         while self.peek() != ")":
@@ -236,7 +248,7 @@ class P:
         if self.accept("->"):
             ret = self.type_()
         body = self.block()
-        return dict(name=name, params=params, selfmode=selfmode, ret=ret, body=body)
+        return dict(name=name, params=params, selfmode=selfmode, ret=ret, body=body, generics=generics)
 
     def type_(self):
         out, depth = [], 0
@@ -314,7 +326,17 @@ class P:
         if v == "for":
             self.eat()
             byref = self.accept("&")
-            var = self.eat()
+            if self.peek() == "(":
+                self.eat("(")
+                var = []
+                while self.peek() != ")":
+                    self.accept("&"); self.accept("mut")
+                    var.append(self.eat())
+                    if not self.accept(","):
+                        break
+                self.eat(")")
+            else:
+                var = self.eat()
             self.eat("in")
             it = self.expr(nostruct=True)
             body = self.block()
@@ -324,6 +346,11 @@ class P:
             e = self.expr()
             self.eat(")"); self.eat(";")
             return ("assert", kind, e)
+        if v in ("assert_ne", "assert_eq", "debug_assert_ne", "debug_assert_eq") and self.peek(1) == "!":
+            kind = self.eat(); self.eat("!"); self.eat("(")
+            a_ = self.expr(); self.eat(","); b_ = self.expr()
+            self.eat(")"); self.eat(";")
+            return ("assert", kind, ("bin", "!=" if kind.endswith("ne") else "==", a_, b_))
         if v == "if":
             e = self.if_()
             if self.peek() == ";":
@@ -820,12 +847,21 @@ class Tr:
             rd = self.expr(args[0], env, to)
             return self.bind_all([rv, rd], lambda ps: R(
                 f"(if (N.leb {ps[0].text} (tmax {bits_of(to, w)})) then {ps[0].text} else {ps[1].text})", True, to))
+        if (name == "unwrap" and not args and recv[0] == "call" and len(recv[1]) == 2
+                and recv[1][1] == "try_from" and recv[1][0] in INT_BITS and len(recv[2]) == 1):
+            to = recv[1][0]
+            rv = self.expr(recv[2][0], env)
+            return self.bind(rv, lambda pv: R(
+                f"(if (N.leb {pv.text} (tmax {bits_of(to, w)})) then Ok {pv.text} else Panic UnwrapNone)", False, to))
         al = self.aliases.get(self.render(e))
         if al:
             return self.expr(("field", ("path", ["self"]), al), env, want)
         # slice.len()
         rr = self.expr(recv, env, want if name.startswith(("saturating", "wrapping")) else None)
         def f(p):
+            if p.ty == "fn(u8)->u8" and name == "rank" and len(args) == 1:
+                ra = self.expr(args[0], env, "u8")
+                return self.bind(ra, lambda pa: R(f"({p.text} {pa.text})", True, "u8"))
             if p.ty == "&[u8]" and name == "len" and not args:
                 return R(f"(N.of_nat (length {p.text}))", True, "usize")
             if p.ty == "&[u8]" and name == "split_at" and len(args) == 1:
@@ -1091,6 +1127,9 @@ class Tr:
                 tys = split_tuple(p.ty)
                 if len(tys) != 2:
                     raise TieBroken(f"{w}: only pairs can be destructured")
+                tys = [LOCAL_HINTS.get((self.prefix, self.fn["name"], n_), t_) if t_ == "?" else t_ for n_, t_ in zip(s[1], tys)]
+                if "?" in tys:
+                    raise TieBroken(f"{w}: cannot infer the types of {s[1]} (add LOCAL_HINTS entries)")
                 env2 = {k_: list(x) for k_, x in env.items()}
                 vs = [self.fresh(n_) for n_ in s[1]]
                 for n_, v, ty in zip(s[1], vs, tys):
@@ -1130,6 +1169,14 @@ class Tr:
                 return self.if_stmt(e, env, cont)
             if e[0] == "match":
                 return self.match_stmt(e, env, cont)
+            if e[0] == "call" and e[1][-2:] == ["mem", "swap"] and len(e[2]) == 2 and \
+                    all(a[0] == "path" and len(a[1]) == 1 and self.lookup(env, a[1][0]) for a in e[2]):
+                n1, n2 = e[2][0][1][0], e[2][1][1][0]
+                b1, b2 = self.lookup(env, n1), self.lookup(env, n2)
+                env2 = {k_: list(x) for k_, x in env.items()}
+                env2[n1] = env2[n1][:-1] + [(b2[0], b1[1])]
+                env2[n2] = env2[n2][:-1] + [(b1[0], b2[1])]
+                return cont(env2)
             if e[0] == "mcall" and e[1] == ("path", ["self"]):
                 sig = self.fnsigs.get((self.prefix, e[2]))
                 if sig and sig["selfmode"] == "mut":
@@ -1327,35 +1374,78 @@ class Tr:
             return self.bind(r, f)
         raise TieBroken(f"{w}: unsupported assignment target")
 
+    def iterable(self, it, env):
+        """the iterator expressions of the subset -> (Coq list term, element kind)
+        kinds: 'byte' (elements are bytes) or 'indexed' (elements are (index, byte) pairs)"""
+        w = self.what
+        chain = []
+        e = it
+        while e[0] == "mcall":
+            chain.append((e[2], e[3]))
+            e = e[1]
+        chain.reverse()
+        r = self.expr(e, env)
+        if not (r.simple and r.ty == "&[u8]"):
+            raise TieBroken(f"{w}: for loops are supported over &[u8] values only")
+        names = [c[0] for c in chain]
+        if names in ([], ["iter"], ["iter", "copied"]):
+            return r.text, "byte"
+        if names == ["iter", "enumerate", "take", "skip"]:
+            rt = self.expr(chain[2][1][0], env, "usize")
+            rs_ = self.expr(chain[3][1][0], env, "usize")
+            if not (rt.simple and rs_.simple):
+                raise TieBroken(f"{w}: take/skip arguments must be simple values")
+            return f"(skipn (N.to_nat {rs_.text}) (firstn (N.to_nat {rt.text}) (enumerate_l {r.text})))", "indexed"
+        raise TieBroken(f"{w}: unsupported iterator chain .{'.'.join(names)}")
+
     def for_(self, s, env, cont):
-        """for &b in slice { assignments to locals }  ==>  a checked left fold"""
+        """for pattern in iterable { assignments to locals }  ==>  a checked left fold over a list,
+        the assigned locals being the accumulator"""
         var, it, body = s[1], s[2], s[3]
         w = self.what
-        r = self.expr(it, env)
-        if not (r.simple and r.ty == "&[u8]"):
-            raise TieBroken(f"{w}: for loops are supported over &[u8] parameters only")
-        assigned = []
-        for b in body:
-            if b[0] != "assign" or b[1][0] != "path" or len(b[1][1]) != 1:
-                raise TieBroken(f"{w}: for body may only assign to locals")
-            if b[1][1][0] not in assigned:
-                assigned.append(b[1][1][0])
-        if len(assigned) != 1:
-            raise TieBroken(f"{w}: for body must update exactly one local")
-        acc = assigned[0]
-        cur = self.lookup(env, acc)
-        if not cur:
-            raise TieBroken(f"{w}: for body assigns unknown {acc}")
-        a, x = self.fresh(acc), self.fresh(var)
-        env2 = {k_: list(v) for k_, v in env.items()}
-        env2[acc] = env2[acc][:-1] + [(a, cur[1])]
-        env2.setdefault(var, []).append((x, "u8"))
-        bodyr = self.stmts(body, env2, lambda e3: R(f"(Ok {self.lookup(e3, acc)[0]})", False, cur[1]))
-        v = self.fresh(acc)
+        ltxt, kind = self.iterable(it, env)
+        if self.in_loop:
+            raise TieBroken(f"{w}: for inside while")
+        self.in_loop = True          # no `return` out of the body
+        try:
+            carried = [v for v in self.assigned_vars(body) if self.lookup(env, v)]
+            if not carried:
+                raise TieBroken(f"{w}: for body assigns nothing")
+            accs = [(self.fresh(n), self.lookup(env, n)[1]) for n in carried]
+            env2 = {k_: list(v) for k_, v in env.items()}
+            for n, (a, ty) in zip(carried, accs):
+                env2[n] = env2[n][:-1] + [(a, ty)]
+            if kind == "byte":
+                if not isinstance(var, str):
+                    raise TieBroken(f"{w}: tuple pattern over bytes")
+                x = self.fresh(var)
+                env2.setdefault(var, []).append((x, "u8"))
+                xpat = x
+            else:
+                if isinstance(var, str) or len(var) != 2:
+                    raise TieBroken(f"{w}: enumerate() needs a pattern (i, &b)")
+                xi, xb = self.fresh(var[0]), self.fresh(var[1])
+                env2.setdefault(var[0], []).append((xi, "usize"))
+                env2.setdefault(var[1], []).append((xb, "u8"))
+                xpat = f"'({xi}, {xb})"
+            def done(e3):
+                cur = [self.lookup(self.scope_exit(env2, e3), n)[0] for n in carried]
+                return R("(" + ", ".join(cur) + ")" if len(cur) > 1 else cur[0], True, "acc")
+            bodyr = self.stmts(body, env2, done)
+        finally:
+            self.in_loop = False
+        apat = "'(" + ", ".join(a for a, _ in accs) + ")" if len(accs) > 1 else accs[0][0]
+        init = "(" + ", ".join(self.lookup(env, n)[0] for n in carried) + ")" if len(carried) > 1 else self.lookup(env, carried[0])[0]
+        res = self.fresh("acc")
         env4 = {k_: list(vv) for k_, vv in env.items()}
-        env4[acc] = env4[acc][:-1] + [(v, cur[1])]
+        outs = []
+        for n in carried:
+            v = self.fresh(n)
+            env4[n] = env4[n][:-1] + [(v, self.lookup(env, n)[1])]
+            outs.append(v)
         r2 = cont(env4)
-        return R(f"({v} <-- rfold (fun {a} {x} => {bodyr.mon()}) {r.text} {cur[0]};;\n  {r2.mon()})", False, "ret")
+        opat = "'(" + ", ".join(outs) + ")" if len(outs) > 1 else outs[0]
+        return R(f"({res} <-- rfold (fun {apat} {xpat} => {bodyr.mon()}) {ltxt} {init};;\n  let {opat} := {res} in\n  {r2.mon()})", False, "ret")
 
 def split_tuple(ty):
     inner, parts, depth, cur = ty[1:-1], [], 0, ""
@@ -1373,6 +1463,8 @@ def split_tuple(ty):
     return parts
 
 def coq_type(ty, structs, what):
+    if ty == "fn(u8)->u8":
+        return "(N -> N)"
     if ty in INT_BITS:
         return "N"
     if ty == "bool":
@@ -1507,6 +1599,8 @@ def translate(repo, group, _emit=True):
             binders.append(f"(self : {prefix})")
         for pn, pt in fn["params"]:
             pt2 = pt.replace("Self", prefix)
+            if pt2 in fn.get("generics", []):
+                pt2 = "fn(u8)->u8"       # the only generic parameter of the subset: a pure byte ranker
             cn = pn.lstrip("_") + "_"
             env[pn] = [(cn, pt2 if not pt2.startswith("&") or pt2 == "&[u8]" else pt2[1:])]
             binders.append(f"({cn} : {coq_type(pt2, structs, what)})")
